@@ -87,69 +87,83 @@ def _cvc5_worker(job):
 
 
 def discharge(obligations, procs=None, z3_timeout_ms=None, cvc5_timeout_ms=None, both=False):
-    """sets .result ('unsat' = discharged, 'sat' = refuted, 'unknown', 'error'), .backend, .time, .model"""
+    """sets .result ('unsat' = discharged, 'sat' = refuted, 'sat-relaxed' = candidate counterexample, 'unknown', 'error'),
+    .backend, .time, .model.
+
+    Stage 1: z3 on the path condition *without its quantified conjuncts* (most obligations do not need the spec-function
+             axioms; dropping assumptions is sound for proofs: unsat stays unsat).
+    Stage 2: for what stage 1 did not prove, z3 on the full query.   Stage 3: cvc5 on what z3 leaves unknown.
+    A model of the relaxed query alone is only a candidate counterexample ('sat-relaxed')."""
+    import z3
+    from .engine import _has_quantifier
     procs = procs or min(16, os.cpu_count() or 4)
     zt = z3_timeout_ms or Z3_TIMEOUT_MS
     ct = cvc5_timeout_ms or CVC5_TIMEOUT_MS
-    jobs = []
-    texts = {}
-    trivial = 0
-    import z3
+    stage1, full_text = [], {}
+    has_q = {}
     for i, ob in enumerate(obligations):
         g = z3.simplify(ob.goal)
         if z3.is_true(g):
             ob.result, ob.backend, ob.time = "unsat", "simplifier", 0.0
-            trivial += 1
             continue
-        texts[i] = ob.smt2()
-        # vacuity canaries ask for a model of the path; with quantified axioms that is often `unknown`, which is tolerated
-        jobs.append((i, texts[i], min(zt, 5000) if ob.kind in ("canary", "vacuity") else zt, ob.kind not in ("canary", "vacuity")))
-    if jobs:
-        ctx = mp.get_context("fork")
+        special = ob.kind in ("canary", "vacuity")
+        quant = any(_has_quantifier(c) for c in ob.pc)
+        has_q[i] = quant
+        if special or not quant:
+            full_text[i] = ob.smt2()
+            stage1.append((i, full_text[i], min(zt, 5000) if special else zt, not special))
+        else:
+            s = z3.Solver()
+            for c in ob.pc:
+                if not _has_quantifier(c):
+                    s.add(c)
+            s.add(z3.Not(ob.goal))
+            ob.false_goal = z3.is_false(g)
+            stage1.append((i, s.to_smt2(), min(zt, 4000) if ob.false_goal else zt, True))
+    ctx = mp.get_context("fork")
+
+    def run(jobs, worker):
+        if not jobs:
+            return []
         with ctx.Pool(min(procs, len(jobs))) as pool:
-            for idx, res, t, model, reason in pool.imap_unordered(_z3_worker, jobs, chunksize=1):
-                ob = obligations[idx]
-                ob.result, ob.backend, ob.time, ob.model = res, "z3", t, model
-                ob.reason = reason
-    pending = [(i, texts[i], ct) for i in texts if obligations[i].kind not in ("canary", "vacuity")
-               and (obligations[i].result in ("unknown", "error") or both)]
-    if pending and os.path.exists(CVC5):
-        ctx = mp.get_context("fork")
-        with ctx.Pool(min(procs, len(pending))) as pool:
-            for idx, res, t in pool.imap_unordered(_cvc5_worker, pending, chunksize=1):
-                ob = obligations[idx]
-                if both and ob.result in ("sat", "unsat"):
-                    if res in ("sat", "unsat") and res != ob.result:
-                        ob.result = "disagree"
-                    continue
-                if res in ("sat", "unsat"):
-                    ob.result, ob.backend, ob.time = res, "cvc5", ob.time + t
-                    if res == "sat":
-                        r2, _t2, mtxt = _cvc5_run(texts[idx], ct, models=True)
-                        ob.model = {"cvc5_model": mtxt} if mtxt else None
-    # what both solvers leave open: retry without the quantified conjuncts of the path condition.  Dropping assumptions is
-    # sound for proofs (unsat stays unsat); a model of the relaxed query is only a *candidate* counterexample
-    # ("sat-relaxed"), which the check confirms natively before it reports anything.
-    from .engine import _has_quantifier
-    relaxed = []
-    for i in texts:
-        ob = obligations[i]
-        if ob.kind in ("canary", "vacuity") or ob.result in ("sat", "unsat", "disagree"):
-            continue
-        s = z3.Solver()
-        for c in ob.pc:
-            if not _has_quantifier(c):
-                s.add(c)
-        s.add(z3.Not(ob.goal))
-        relaxed.append((i, s.to_smt2(), zt, True))
-    if relaxed:
-        ctx = mp.get_context("fork")
-        with ctx.Pool(min(procs, len(relaxed))) as pool:
-            for idx, res, t, model, reason in pool.imap_unordered(_z3_worker, relaxed, chunksize=1):
-                ob = obligations[idx]
-                ob.time += t
-                if res == "unsat":
-                    ob.result, ob.backend = "unsat", "z3(quantifier-free part)"
-                elif res == "sat":
-                    ob.result, ob.backend, ob.model = "sat-relaxed", "z3(quantifier-free part)", model
+            return list(pool.imap_unordered(worker, jobs, chunksize=1))
+
+    stage2 = []
+    for idx, res, t, model, reason in run(stage1, _z3_worker):
+        ob = obligations[idx]
+        ob.time += t
+        ob.reason = reason
+        if not has_q.get(idx) or ob.kind in ("canary", "vacuity"):
+            ob.result, ob.backend, ob.model = res, "z3", model
+        elif res == "unsat":
+            ob.result, ob.backend = "unsat", "z3(quantifier-free part)"
+        elif getattr(ob, "false_goal", False) and res != "sat":
+            ob.result, ob.backend = "unknown", "z3(quantifier-free part)"     # path neither refuted nor witnessed
+        else:
+            ob.relaxed = (res, model)
+            full_text[idx] = ob.smt2()
+            # a goal that is literally False asks for a model of the whole path; with quantified axioms that is rarely
+            # produced: keep the attempt short, the relaxed model stands as candidate
+            stage2.append((idx, full_text[idx], min(zt, 3000) if ob.false_goal else zt, True))
+    for idx, res, t, model, reason in run(stage2, _z3_worker):
+        ob = obligations[idx]
+        ob.time += t
+        ob.result, ob.backend, ob.model, ob.reason = res, "z3", model, reason
+    pending = [(i, full_text[i], min(ct, 5000) if getattr(ob, "false_goal", False) else ct) for i, ob in enumerate(obligations)
+               if i in full_text and ob.kind not in ("canary", "vacuity")
+               and (ob.result in ("unknown", "error") or (both and ob.result in ("sat", "unsat")))]
+    if os.path.exists(CVC5):
+        for idx, res, t in run(pending, _cvc5_worker):
+            ob = obligations[idx]
+            ob.time += t
+            if both and ob.result in ("sat", "unsat"):
+                if res in ("sat", "unsat") and res != ob.result:
+                    ob.result = "disagree"
+                continue
+            if res in ("sat", "unsat"):
+                ob.result, ob.backend = res, "cvc5"
+    for ob in obligations:
+        rel = getattr(ob, "relaxed", None)
+        if ob.result in ("unknown", "error") and rel and rel[0] == "sat":
+            ob.result, ob.backend, ob.model = "sat-relaxed", "z3(quantifier-free part)", rel[1]
     return obligations
